@@ -65,6 +65,15 @@ def _fire():
     os.write(fd, f"{os.getpid()}".encode())
     os.close(fd)
     kind = PLAN['kind']
+    if os.getpid() == PARENT:
+        # the task is being executed by the process that called run(): the
+        # abrupt end of the executing process is the end of the caller
+        OUT['in_process'] = True
+        if kind == 'exit':
+            OUT.update(run1='caller-killed', run1_latency=None, fired=True,
+                       run2='not-run', store_lock_held=False,
+                       collection_lock_held=False, left1=None)
+            emit_and_exit()
     if kind == 'exit':
         os._exit(3)
     if kind == 'raise':
@@ -86,7 +95,7 @@ def _fire():
 def at(point):
     """ called by every wrapper; fires the plan when it names this point,
     this ordinal, in the worker handling the chosen file """
-    if not ARMED[0] or os.getpid() == PARENT:
+    if not ARMED[0]:
         return
     if point == 'alloc_inside_lock' and CUR['path'] is not None and \
             CUR['path'] == _parkfile():
